@@ -108,19 +108,37 @@ func cipTerm(ip *net.IPAddr, err error) string {
 }
 
 type probeRec struct {
-	ran   bool
-	scope fox.HandlerScope
-	cip   string
+	ran                  bool
+	scope                fox.HandlerScope
+	own, clone, cloneWith string
+	down                 string // what the route handler saw on the context it was given; "" = no recording handler ran
 }
 
+// viewTerm: what a context shows for this property - ClientIP() and the pattern of Route()
+func viewTerm(c fox.Context) string {
+	pat := "None"
+	if r := c.Route(); r != nil {
+		pat = "(Some " + hx.Bytes(r.Pattern()) + ")"
+	}
+	return "(" + cipTerm(c.ClientIP()) + ", " + pat + ")"
+}
+
+// the probing middleware reads its own context, a Clone and a CloneWith copy, and hands the CloneWith copy
+// to the rest of the chain (the documented use of CloneWith: wrapping the ResponseWriter)
 func probeMw(rec *probeRec) fox.MiddlewareFunc {
 	return func(next fox.HandlerFunc) fox.HandlerFunc {
 		return func(c fox.Context) {
-			if !rec.ran {
-				rec.ran, rec.scope = true, c.Scope()
-				rec.cip = cipTerm(c.ClientIP())
+			if rec.ran {
+				next(c)
+				return
 			}
-			next(c)
+			rec.ran, rec.scope = true, c.Scope()
+			rec.own = viewTerm(c)
+			rec.clone = viewTerm(c.Clone())
+			cp := c.CloneWith(c.Writer(), c.Request())
+			defer cp.Close()
+			rec.cloneWith = viewTerm(cp)
+			next(cp)
 		}
 	}
 }
@@ -139,6 +157,14 @@ func fns(ms []bool) []fox.MiddlewareFunc {
 func handlerOrNil(ok bool) fox.HandlerFunc {
 	if ok {
 		return noopHandler
+	}
+	return nil
+}
+
+// route handlers record what the context they receive shows
+func routeHandlerOrNil(ok bool, rec *probeRec) fox.HandlerFunc {
+	if ok {
+		return func(c fox.Context) { rec.down = viewTerm(c) }
 	}
 	return nil
 }
@@ -325,11 +351,11 @@ func runOp(f *fox.Router, rec *probeRec, pats []Pat, o Op) (obs string) {
 		}
 		switch o.Via {
 		case "VHandle":
-			rte, err = f.Handle(http.MethodGet, p.Pattern, handlerOrNil(o.Handler), opts...)
+			rte, err = f.Handle(http.MethodGet, p.Pattern, routeHandlerOrNil(o.Handler, rec), opts...)
 		case "VUpdate":
-			rte, err = f.Update(http.MethodGet, p.Pattern, handlerOrNil(o.Handler), opts...)
+			rte, err = f.Update(http.MethodGet, p.Pattern, routeHandlerOrNil(o.Handler, rec), opts...)
 		default:
-			rte, err = f.NewRoute(p.Pattern, handlerOrNil(o.Handler), opts...)
+			rte, err = f.NewRoute(p.Pattern, routeHandlerOrNil(o.Handler, rec), opts...)
 			if err == nil {
 				err = f.HandleRoute(http.MethodGet, rte)
 			}
@@ -359,7 +385,11 @@ func runOp(f *fox.Router, rec *probeRec, pats []Pat, o Op) (obs string) {
 		if !rec.ran {
 			return "ObsPanic"
 		}
-		return fmt.Sprintf("(ObsProbe %s %s)", kindOf(rec.scope), rec.cip)
+		down := "None"
+		if rec.down != "" {
+			down = "(Some " + rec.down + ")"
+		}
+		return fmt.Sprintf("(ObsProbe %s %s %s %s %s)", kindOf(rec.scope), rec.own, rec.clone, rec.cloneWith, down)
 	case "annotget":
 		rte := f.Route(http.MethodGet, p.Pattern)
 		if rte == nil {
@@ -588,7 +618,10 @@ func (g *gen) ops(pats []Pat, invalidPct int) []Op {
 		}
 		out = append(out, Op{Kind: "probe", Key: key, Probe: pr})
 	}
-	out = append(out, Op{Kind: "access", Key: key}, Op{Kind: "annotget", Key: key, AKey: g.rnd.Intn(5)})
+	out = append(out, Op{Kind: "access", Key: key})
+	for k := 0; k < 5; k++ { // every annotation key the generator uses
+		out = append(out, Op{Kind: "annotget", Key: key, AKey: k})
+	}
 	return out
 }
 
@@ -609,7 +642,7 @@ func main() {
 			"Definition oof := Eval vm_compute in fuel_outs cases.\nPrint oof.\n" +
 			"Definition known_newroute_nil_handler := Eval vm_compute in Corr.known_newroute_nil_handler cases.\nPrint known_newroute_nil_handler.\n",
 	}
-	st := &hx.Stats{Rule: "a case = 0-7 seeded global options (trailing-slash modes on/off, resolvers incl. nil, middleware incl. nil, nil/non-nil special handlers, NoMethod/AutoOptions, DefaultOptions) + the probing middleware; 3 patterns built from tokens (static, {param}, prefix{param}, suffix / infix catch-all, optional hostname with wildcards, optional trailing slash; an invalid-pattern stream); 3-9 operations (Handle / Update / NewRoute+HandleRoute with 0-6 route options: both trailing-slash modes, resolvers incl. nil, annotations with hashable / nil / unhashable-dynamic / non-comparable keys and nil values, middleware incl. nil; requests exact / trailing-slash-toggled / unmatched / POST / OPTIONS; Route.Annotation; accessors) + a closing sweep; exhaustive: all sequences of <= L global and <= L route trailing-slash options. non-trivial = a route was created with at least one route option or a create operation failed; distinct = distinct (options, patterns, operations)"}
+	st := &hx.Stats{Rule: "a case = 0-7 seeded global options (trailing-slash modes on/off, resolvers incl. nil, middleware incl. nil, nil/non-nil special handlers, NoMethod/AutoOptions, DefaultOptions) + the probing middleware; 3 patterns built from tokens (static, {param}, prefix{param}, suffix / infix catch-all, optional hostname with wildcards, optional trailing slash; an invalid-pattern stream); 3-9 operations (Handle / Update / NewRoute+HandleRoute with 0-6 route options: both trailing-slash modes, resolvers incl. nil, annotations with hashable / nil / unhashable-dynamic / non-comparable keys and nil values, middleware incl. nil; requests exact / trailing-slash-toggled / unmatched / POST / OPTIONS; Route.Annotation; accessors) + a closing sweep; exhaustive: all sequences of <= L global and <= L route trailing-slash options; router resolver x route resolver (inherited / own / nil) x route trailing-slash mode x five request shapes. Every request reads ClientIP and Route().Pattern() on the middleware's context, on c.Clone(), on c.CloneWith(...) and in the route handler that receives the CloneWith copy. non-trivial = a route was created with at least one route option or a create operation failed; distinct = distinct (options, patterns, operations)"}
 	seen := map[string]bool{}
 	nontrivial := 0
 
@@ -747,6 +780,47 @@ func main() {
 				ropts = append(ropts, ROpt{Kind: ts[i].k, B: ts[i].b})
 			}
 			add(gopts, []Pat{pat}, []Op{{Kind: "create", Via: "VHandle", Key: 0, Handler: true, Opts: ropts}, {Kind: "probe", Key: 0, Probe: 1}, {Kind: "access", Key: 0}}, "exhaustive-ts")
+		}
+	}
+	// exhaustive: all annotation sequences of length <= 3 over {k0:=1, k0:=2, k0:=nil, k1:=1}, then read both keys
+	annots := []ROpt{{Kind: "annot", KeyK: "hash", KeyID: 0, Val: 1}, {Kind: "annot", KeyK: "hash", KeyID: 0, Val: 2},
+		{Kind: "annot", KeyK: "hash", KeyID: 0, Val: -1}, {Kind: "annot", KeyK: "hash", KeyID: 1, Val: 1}}
+	var arec func(cur []ROpt)
+	arec = func(cur []ROpt) {
+		add([]GOpt{{Kind: "mw", Ms: []bool{true}}}, []Pat{pat}, []Op{{Kind: "create", Via: "VHandle", Key: 0, Handler: true, Opts: append([]ROpt(nil), cur...)},
+			{Kind: "annotget", Key: 0, AKey: 0}, {Kind: "annotget", Key: 0, AKey: 1}}, "exhaustive-annotations")
+		if len(cur) == 3 {
+			return
+		}
+		for _, a := range annots {
+			arec(append(cur, a))
+		}
+	}
+	arec(nil)
+	// exhaustive: router-wide resolver {none, set} x route resolver {inherited, own, nil} x route trailing-slash mode
+	// {none, ignore, redirect}, every special handler enabled, all five request shapes: ClientIP and Route read on the
+	// handler's context, on a Clone, on a CloneWith copy and downstream of the middleware
+	for _, gres := range []int{-2, 2} {
+		for _, rres := range []int{-2, 6, -1} {
+			for _, mode := range []string{"", "ignore", "redirect"} {
+				gopts := []GOpt{{Kind: "nomethod", B: true}, {Kind: "autooptions", B: true}}
+				if gres > 0 {
+					gopts = append(gopts, GOpt{Kind: "clientip", Res: gres})
+				}
+				gopts = append(gopts, GOpt{Kind: "mw", Ms: []bool{true}})
+				var ropts []ROpt
+				if rres != -2 {
+					ropts = append(ropts, ROpt{Kind: "clientip", Res: rres})
+				}
+				if mode != "" {
+					ropts = append(ropts, ROpt{Kind: mode, B: true})
+				}
+				ops := []Op{{Kind: "create", Via: "VHandle", Key: 0, Handler: true, Opts: ropts}}
+				for pr := 0; pr < 5; pr++ {
+					ops = append(ops, Op{Kind: "probe", Key: 0, Probe: pr})
+				}
+				add(gopts, []Pat{pat}, ops, "exhaustive-resolver")
+			}
 		}
 	}
 	mk := func(invOpt, invPat int, allowDefault bool) ([]GOpt, []Pat) {
